@@ -226,8 +226,10 @@ fn rx_payload_127x<const B: usize>(implicit: bool) {
     let pp = PacketParams { preamble_length: 8, implicit_header: implicit, payload_length: cfg_len, crc_on: true, iq_inverted: true };
     let res = block_on(r.get_rx_payload(&pp, &mut buf));
     let l = spi();
+    // universally quantified buffer position (none when the buffer is empty)
     let k: usize = kani::any();
-    kani::assume(k < B);
+    kani::assume(B == 0 || k < B);
+    let canary_ok = |buf: &[u8; B]| B == 0 || buf[k] == canary;
     match res {
         Ok(n) => {
             let n = n as usize;
@@ -241,20 +243,23 @@ fn rx_payload_127x<const B: usize>(implicit: bool) {
             kani::assert(l.t[base].w[0] == 0x10, "C18: RegFifoRxCurrentAddr is read");
             kani::assert(l.t[base + 1].w[0] == 0x8D && l.t[base + 1].w[1] == cur, "C18: FIFO pointer set to the start of the received packet");
             kani::assert(l.t[base + 2].w[0] == 0x00 && l.t[base + 2].rlen == n, "C18: exactly the packet's bytes are read from the FIFO");
-            if k >= n {
+            if B == 0 {
+                // nothing to compare
+            } else if k >= n {
                 kani::assert(buf[k] == canary, "C18: bytes beyond the packet must be left untouched");
             } else if n > MAXRB {
                 if k == l.big_j {
                     kani::assert(buf[k] == l.big_v, "C18: packet bytes come from the FIFO");
                 }
             } else {
-                kani::assert(buf[k] == l.script[base + 2][k % MAXRB], "C18: packet bytes come from the FIFO");
+                kani::assert(buf[k] == script_at(base + 2, k), "C18: packet bytes come from the FIFO");
             }
-            kani::cover!(n == B && B > 0, "packet fills the buffer exactly");
+            kani::cover!(n == B && B > 0, "info: packet fills the buffer exactly");
+            kani::cover!(true, "witness: a packet was fetched");
         }
         Err(e) => {
-            kani::assert(buf[k] == canary, "C18: a failed fetch must not touch the buffer");
-            kani::cover!(matches!(e, RadioError::PayloadSizeMismatch(_, _)), "chip reports more bytes than the buffer holds");
+            kani::assert(canary_ok(&buf), "C18: a failed fetch must not touch the buffer");
+            kani::cover!(matches!(e, RadioError::PayloadSizeMismatch(_, _)), "info: chip reports more bytes than the buffer holds");
         }
     }
 }
